@@ -49,8 +49,9 @@ ASSUMPTIONS = [
     'invalid release key = string not matching the PEP 440 appendix-B grammar; invalid generation key = no integer >= 1 '
     'under int()/float(); other spellings (v1.0, 1_0, " 2 ", +3, 01, 1.0) are only checked for consistency when accepted',
     'names/packages/modules are ASCII (PEP 508 name charset, non-keyword identifiers); versions are written canonically',
-    'string ordinals with C0/C1 control characters, a backslash followed by x, or leading double quotes hit defects of the '
-    'toml 0.10.2 encoder/decoder used by Tag.dumps/loads; they are generated at a low rate and bucketed separately',
+    'string ordinals with C0/C1 control characters, a backslash followed by x, leading double quotes, or a backslash-u '
+    'after a non-printable character hit defects of the toml 0.10.2 encoder/decoder used by Tag.dumps/loads; they are '
+    'generated at a low rate and bucketed separately (the four shapes cover every failure among 1.6M fuzzed strings)',
 ]
 FLOORS = {
     'tag:training-absent': 0.02,
@@ -80,7 +81,7 @@ def _scratch(ctx, prefix: str) -> pathlib.Path:
 # =====================================================================================================================
 _TZ = [None, None, None, None, 0, 60, -300, 330, 765, -720, 840, 1, -1, 1439, -1439]
 _STR_ALPHABET = list('abcXYZ019 _-.,:;#=[]{}()!?*+/\'"\\\n\t\r') + list('xnut') + ['é', 'ß', 'ж', '日', '😀', '\u2028', '\u200b']
-_STR_NASTY = ['"', '""', '""a', '"""', 'C:\\x', '\\x41', 'a\\xb', '\\\\x', '\x00', 'a\x7fb', '\x1b[0m', 'a\xa0b', 'a\x00\\x', '\x85']
+_STR_NASTY = ['"', '""', '""a', '"""', 'C:\\x', '\\x41', 'a\\xb', '\\\\x', '\x00', 'a\x7fb', '\x1b[0m', 'a\xa0b', 'a\x00\\x', '\x85', '\u2028\\uX', '\u200b\\u0041']
 
 
 def str_trigger(s: str):
@@ -91,6 +92,9 @@ def str_trigger(s: str):
         return 'str-backslash-x'
     if s == '"' or s.startswith('""'):
         return 'str-leading-quotes'
+    escaped = [i for i, c in enumerate(s) if ord(c) >= 0x100 and not c.isprintable()]  # dumped as \\uXXXX
+    if escaped and '\\u' in s[escaped[0] :]:
+        return 'str-backslash-u-after-escape'
     return None
 
 
@@ -862,9 +866,9 @@ def check_package(ctx, spec):
 
 def campaigns(ctx):
     return [
-        Campaign('tag', tag_spec(), check_tag, 3000, 40000),
-        Campaign('relkey', relkey_spec(), check_relkey, 1500, 15000),
-        Campaign('genkey', genkey_spec(), check_genkey, 1500, 15000),
+        Campaign('tag', tag_spec(), check_tag, 3000, 30000),
+        Campaign('relkey', relkey_spec(), check_relkey, 1500, 12000),
+        Campaign('genkey', genkey_spec(), check_genkey, 1500, 12000),
         Campaign('manifest', manifest_spec(), check_manifest, 500, 4000),
         Campaign('package', package_spec(), check_package, 100, 500),
     ]
